@@ -29,6 +29,7 @@ EXPLANATION = (
     "These are necessary conditions of C03; maximality/exactness of chains, hull minimality and clipping values "
     "quantify over layouts and are not decided."
     ' R03.4 also: extenders grow cores before the uniting merge runs (grown afterwards, two cores of one rule can overlap).'
+    ' R03.8: every (protocluster, reach) pair the origin merge stores or carries on holds the reach of that very protocluster (taken together from the swept list, or recomputed from its core after a merge).'
 )
 UNDECIDED = [
     "maximality and exactness of the cutoff chains for all gene layouts",
@@ -435,6 +436,73 @@ def r03_7(ctx: Ctx, rule: str = "R03.7") -> None:
            form=txt(after[0])[:120] if after else "")
 
 
+def r03_8(ctx: Ctx, rule: str = "R03.8") -> None:
+    """ the sweep of merge_over_origin keeps (protocluster, reach) pairs, the reach being that protocluster's core
+        extended by the cutoff.  Every pair it stores or carries to the next comparison is *of one object*: both halves
+        come from the same element of the swept list, or the reach is computed from the stored protocluster's own core.
+        After a merge the later cluster's reach is not the pair's reach (the earlier core may reach further forward when
+        both come from origin-spanning genes). """
+    from ..flow import inline_reaching
+    qual = "merge_over_origin"
+    func = ctx.fn(CP, qual)
+    cfg = CFG(func)
+    pairs = []   # (statement, first expr, second expr)
+    for node in walk_local(func):
+        if isinstance(node, ast.Assign) and isinstance(node.value, ast.Tuple) and len(node.value.elts) == 2:
+            target = node.targets[0]
+            if isinstance(target, ast.Subscript) or (isinstance(target, ast.Tuple) and len(target.elts) == 2):
+                pairs.append((node, node.value.elts[0], node.value.elts[1]))
+        if isinstance(node, ast.Expr) and isinstance(node.value, ast.Call) and last_attr(node.value) == "append" \
+                and node.value.args and isinstance(node.value.args[0], ast.Tuple) and len(node.value.args[0].elts) == 2:
+            pairs.append((node, node.value.args[0].elts[0], node.value.args[0].elts[1]))
+    count = 0
+    for stmt, first, second in pairs:
+        if not isinstance(first, ast.Name):
+            continue
+        try:
+            at = cfg.n(stmt)
+        except KeyError:
+            continue
+        # names that hold the same object as `first` here (plain copies: `prev_cluster = merged`)
+        same = {first.id}
+        todo = [first.id]
+        while todo:
+            cur = todo.pop()
+            for d in cfg.reaching_defs(cur, at):
+                node = cfg.nodes[d].ast if d >= 0 else None
+                if isinstance(node, ast.Assign) and len(node.targets) == 1 and isinstance(node.targets[0], ast.Name) \
+                        and isinstance(node.value, ast.Name) and node.value.id not in same \
+                        and len(cfg.reaching_defs(cur, at)) == 1:
+                    same.add(node.value.id)
+                    todo.append(node.value.id)
+        resolved = inline_reaching(cfg, stmt, second, keep=same)
+        text = txt(resolved)
+        from_core = any(f"{name}.core_location" in text for name in same) and \
+            ("extend_location" in text or "_extend_area_location" in text)
+        same_origin = False
+        if isinstance(second, ast.Name):
+            d1, d2 = cfg.reaching_defs(first.id, at), cfg.reaching_defs(second.id, at)
+            # bound together: by one tuple-unpacking statement (a loop target or `a, b = lst[i]`)
+            def joint(d: int) -> bool:
+                node = cfg.nodes[d].ast if d >= 0 else None
+                target = node.target if isinstance(node, ast.For) else node.targets[0] if isinstance(node, ast.Assign) else None
+                return isinstance(target, ast.Tuple) and {first.id, second.id} <= {e.id for e in target.elts if isinstance(e, ast.Name)}
+            same_origin = bool(d1) and d1 == d2 and all(joint(d) for d in d1)
+        if not (from_core or same_origin or isinstance(second, ast.Name) or "extend" in text):
+            continue   # not a (protocluster, reach) pair
+        count += 1
+        ok = from_core or same_origin
+        ctx.ob(rule, CP, stmt, qual, f"pair ({first.id}, {txt(second)[:30]}) is of one protocluster", ok,
+               "a stored (protocluster, reach) pair holds the reach of that very protocluster: taken together from the swept list, "
+               "or recomputed from its core after a merge",
+               detail="" if ok else f"`{first.id}` was rebound (a merge) after `{txt(second)}` was taken from the list: the merged "
+               "protocluster is paired with the reach of its later member only - ring of 10000, cutoff 100: genes 9000->500 and 9990->10 "
+               "merge, and a gene at 550..600 (within the cutoff of 500) is left on its own once another cluster follows",
+               form=f"{txt(first)} <- defs {sorted(cfg.reaching_defs(first.id, at))}; reach {text[:70]}")
+    if count < 2:
+        raise AnalysisError(f"{qual}: the (protocluster, reach) pairs of the sweep were not found")
+
+
 WRAP_SCOPE = ["antismash/common/hmm_rule_parser/cluster_prediction.py", "antismash/common/hmm_rule_parser/rule_parser.py",
               "antismash/common/utils.py", "antismash/detection/hmm_detection/__init__.py",
               "antismash/common/secmet/features/candidate_cluster/formation.py"]
@@ -492,3 +560,5 @@ def run(ctx: Ctx) -> None:
     r03_6(ctx)
     ctx.rule("R03.7", "the sorted sweep over circular intervals is closed by a last/first comparison", floor=1)
     r03_7(ctx)
+    ctx.rule("R03.8", "(protocluster, reach) pairs of the origin merge are of one protocluster", floor=2)
+    r03_8(ctx)
